@@ -349,7 +349,7 @@ def main(prop):
     ck = Check(prop)
     ck.trusted = ["Lean 4.33.0 kernel", "axioms: propext, Classical.choice, Quot.sound (audited)", "correspondence harness + JSON driver",
                   "CPython str.split/rstrip/re.match and dict ordering as modelled in Model/Gaf.lean"]
-    ck.lean_build(["Gaftools.Props.%s" % prop] + (["Gaftools.Props.TieA", "Gaftools.Props.TieA2", "Gaftools.Props.TieA14"] if prop == "C19" else ["Gaftools.Props.TieA7"] if prop in ("C16", "C20") else []))
+    ck.lean_build(["Gaftools.Props.%s" % prop] + (["Gaftools.Props.TieA", "Gaftools.Props.TieA2", "Gaftools.Props.TieA14"] if prop == "C19" else ["Gaftools.Props.TieA7"] + (["Gaftools.Props.TieA22"] if prop == "C20" else []) if prop in ("C16", "C20") else []))
     ck.audit("%s.lean" % prop)
     tmp = tempfile.mkdtemp(prefix="gtv-text-")
     try:
